@@ -233,12 +233,25 @@ func vpH_C12_ChooseSpends() {
 // vpModelChoose: contract of ChooseSpendsMinimizeUxOuts (checked by
 // vpH_C12_ChooseSpends): an error, or a duplicate-free subset of the offered
 // balances (in some order) covering the requested coins and hours.
+// vpModelChoose is the contract of ChooseSpends: an arbitrary but fixed answer per
+// harness run (Create may ask twice with the same arguments and must then get
+// the same answer, as from the real, deterministic function).
+var vpChooseAsked bool
+var vpChooseGot []UxBalance
+var vpChooseErr error
+
 func vpModelChoose(uxa []UxBalance, coins, hours uint64) ([]UxBalance, error) {
+	if vpChooseAsked {
+		return append([]UxBalance(nil), vpChooseGot...), vpChooseErr
+	}
+	vpChooseAsked = true
 	switch vpLen("choose.outcome", 0, 2) {
 	case 1:
-		return nil, ErrInsufficientBalance
+		vpChooseErr = ErrInsufficientBalance
+		return nil, vpChooseErr
 	case 2:
-		return nil, ErrInsufficientHours
+		vpChooseErr = ErrInsufficientHours
+		return nil, vpChooseErr
 	}
 	var got []UxBalance
 	var sc, sh uint64
@@ -253,6 +266,7 @@ func vpModelChoose(uxa []UxBalance, coins, hours uint64) ([]UxBalance, error) {
 		got[0], got[1] = got[1], got[0]
 	}
 	vpAssume(len(got) > 0 && sc >= coins && fee.RemainingHours(sh, params.UserVerifyTxn.BurnFactor) >= hours)
+	vpChooseGot, vpChooseErr = append([]UxBalance(nil), got...), nil
 	return got, nil
 }
 
@@ -273,6 +287,7 @@ func vpModelUxOutHash(uo *coin.UxOut) cipher.SHA256 {
 //vp:noreplay callees are summarised
 //vp:unwind 40
 func vpH_C12_CreateAroundChosenSpends() {
+	vpChooseAsked, vpChooseGot, vpChooseErr = false, nil, nil
 	maxUx, maxTo := 2, 1
 	if vpThorough() {
 		maxUx, maxTo = 3, 2
